@@ -42,7 +42,9 @@ def generate(g, tier):
     # level settings (recursion limit, digit limit, working directory, environment) are process state too
     SENSITIVE = ['$STRING ' + '+'.join(['1'] * n) for n in (900, 1100, 1200, 1500, 3000)] + \
                 ['\n'.join([f'FUNC g{k}\n    RUN g{k + 1}' for k in range(L - 2)] + [f'FUNC g{L - 2}\n    STRING bottom', 'RUN g0']) for L in (150, 199)]
-    FAILING = ['GUI xx', '$STRING 1/0', 'FUNC f\n    RUN f\nRUN f', 'RUN nosuch', 'STRING a\n  STRING b', '$STRING ' + '+'.join(['1'] * 1300)]
+    FAILING = ['GUI xx', '$STRING 1/0', 'FUNC f\n    RUN f\nRUN f', 'RUN nosuch', 'STRING a\n  STRING b', '$STRING ' + '+'.join(['1'] * 1300),
+               '$STRING 10^5000', 'VAR big 7*10^4400\nDELAY big', '$STRING "n="+10^5000']
+    SENSITIVE += ['$STRING 10^5000', '$STRING "n="+10^4999', '$STRING ' + '9' * 5000, 'VAR v 10^4300\n$STRING v']
     for _ in range(count(tier, 24, 120)):
         steps = []
         key = r.choice(['H', None])
